@@ -502,3 +502,71 @@ func TestServerConnCloseStress(t *testing.T) {
 	b, _ := json.Marshal(rep)
 	fmt.Println("STRESS " + string(b))
 }
+
+// TestServerLifeStress: a CqlServer with many accepted connections is closed at the moment its peers drop (and, in
+// other rounds, a moment before or after): Close must return, every connection must end up closed.
+func TestServerLifeStress(t *testing.T) {
+	n, _ := strconv.Atoi(os.Getenv("VERIF_STRESS"))
+	if n == 0 {
+		t.Skip("VERIF_STRESS not set")
+	}
+	seed, _ := strconv.Atoi(os.Getenv("VERIF_SEED"))
+	var problems []string
+	conns := 0
+	for round := 0; round < n && len(problems) < 10; round++ {
+		ctx, cancel := context.WithCancel(context.Background())
+		srv := client.NewCqlServer("127.0.0.1:0", nil)
+		srv.MaxConnections = 64
+		srv.AcceptTimeout = 2 * time.Second
+		if err := srv.Start(ctx); err != nil {
+			t.Fatal(err)
+		}
+		k := 8 + (round+seed)%32
+		var cls []*client.CqlClientConnection
+		var svs []*client.CqlServerConnection
+		for i := 0; i < k; i++ {
+			cc := client.NewCqlClient(srv.VerifListenAddr(), nil)
+			c, err := cc.Connect(ctx)
+			if err != nil {
+				problems = append(problems, fmt.Sprintf("round %d: connect: %v", round, err))
+				break
+			}
+			cls = append(cls, c)
+			if sc, err := srv.Accept(c); err != nil {
+				problems = append(problems, fmt.Sprintf("round %d: Accept of a connected client: %v", round, err))
+			} else {
+				svs = append(svs, sc)
+			}
+		}
+		conns += len(cls)
+		var wg sync.WaitGroup
+		for _, c := range cls {
+			wg.Add(1)
+			go func(c *client.CqlClientConnection) { defer wg.Done(); _ = c.Close() }(c)
+		}
+		for i := 0; i < (round*13+seed)%400; i++ {
+			runtime.Gosched()
+		}
+		done := make(chan struct{})
+		go func() { _ = srv.Close(); close(done) }()
+		select {
+		case <-done:
+		case <-time.After(20 * time.Second):
+			problems = append(problems, fmt.Sprintf("round %d: CqlServer.Close did not return within 20 s (%d peers dropping at the same moment)", round, len(cls)))
+		}
+		wg.Wait()
+		deadline := time.Now().Add(5 * time.Second)
+		for _, sc := range svs {
+			for !sc.IsClosed() && time.Now().Before(deadline) {
+				time.Sleep(time.Millisecond)
+			}
+			if !sc.IsClosed() {
+				problems = append(problems, fmt.Sprintf("round %d: a server connection is still open after the server was closed and its peer dropped", round))
+				break
+			}
+		}
+		cancel()
+	}
+	b, _ := json.Marshal(map[string]interface{}{"rounds": n, "connections": conns, "problems": problems})
+	fmt.Println("LSTRESS " + string(b))
+}
